@@ -120,7 +120,18 @@ fn run_with<S: shuttle::scheduler::Scheduler + 'static>(w: &Workload, reference:
     let _ = std::fs::remove_dir_all(&dir);
 }
 fn explore(w: &Workload, seed: u64, iters: usize) -> Result<Explored, String> {
-    let reference = Arc::new(reference_of(w)?);
+    let reference = match reference_of(w) {
+        Ok(r) => Arc::new(r),
+        Err(e) if e.contains("MUST-FAIL-ACCEPTED") => {
+            // an absolute oracle fired already in the one-after-another execution: that is a verdict, not a failed reference
+            let mut ex = Explored::default();
+            ex.executions = 1;
+            ex.failure = Some((classify(&e).to_string(), e.chars().take(400).collect(), String::new()));
+            ex.sched_kind = "sequential".to_string();
+            return Ok(ex);
+        }
+        Err(e) => return Err(e),
+    };
     let mut ex = Explored::default();
     ex.history_ops = w.threads.iter().flatten().filter(|o| OPS[(o[0] as usize) % OPS.len()].starts_with("shared")).count() as u64;
     run_with(w, reference.clone(), RandomScheduler::new_from_seed(seed, iters), "random", &mut ex);
@@ -247,6 +258,10 @@ fn main() {
             }
             let reference = match reference_of(&w) {
                 Ok(r) => Arc::new(r),
+                Err(e) if e.contains("MUST-FAIL-ACCEPTED") => {
+                    println!("{}", json!({"verdict": "violation", "oracle": classify(&e), "detail": e, "log_hash": "-"}));
+                    std::process::exit(1);
+                }
                 Err(e) => {
                     println!("{}", json!({"verdict": "reference-failed", "error": e}));
                     std::process::exit(3);
